@@ -78,3 +78,36 @@ theorem repairedUsage_consistent (ws : List WorkloadRes) (h : ∀ w ∈ ws, WFW 
   exact ⟨h1, h2, h3, h4⟩
 
 end Eru.Book
+
+namespace Eru.Book
+open Eru
+
+theorem sumBy_zero (ws : List WorkloadRes) (f : WorkloadRes → Int) (h : ∀ w ∈ ws, f w = 0) : sumBy ws f = 0 := by
+  induction ws with
+  | nil => rfl
+  | cons w rest ih =>
+    rw [sumBy_cons, h w (by simp), ih (fun x hx => h x (by simp [hx]))]; rfl
+
+theorem keys_all_iff (m : IMap) (ws : List WorkloadRes) (f : WorkloadRes → IMap) :
+    ((allKeys m ws f).all fun k => m.get k == sumBy ws (fun w => (f w).get k)) = true ↔
+      ∀ k, m.get k = sumBy ws (fun w => (f w).get k) := by
+  simp only [List.all_eq_true, beq_iff_eq]
+  constructor
+  · intro h k
+    by_cases hk : k ∈ allKeys m ws f
+    · exact h k hk
+    · unfold allKeys at hk
+      simp only [List.mem_append, List.mem_flatMap, not_or, not_exists, not_and] at hk
+      rw [get_of_not_mem_keys m k hk.1, sumBy_zero ws _ (fun w hw => get_of_not_mem_keys (f w) k (hk.2 w hw))]
+  · intro h k _; exact h k
+
+/-- the decidable predicate evaluated by the oracle is the `Consistent` of the theorems -/
+theorem consistentB_iff (u : NodeRes) (live : List WorkloadRes) : consistentB u live = true ↔ Consistent u live := by
+  unfold consistentB Consistent
+  simp only [Bool.and_eq_true, beq_iff_eq]
+  rw [keys_all_iff u.cpuMap live (·.cpuMap), keys_all_iff u.numaMemory live (·.numaMemory)]
+  constructor
+  · rintro ⟨⟨⟨a, b⟩, c⟩, d⟩; exact ⟨a, b, c, d⟩
+  · rintro ⟨a, b, c, d⟩; exact ⟨⟨⟨a, b⟩, c⟩, d⟩
+
+end Eru.Book
